@@ -274,6 +274,16 @@ def calculate_circle_center(vertices, method: str="dlite") -> Tuple:
         return center[0], center[1]
 
 def dlite_circle_method(xs, ys):
+    # fit in a local frame whose origin is one point-cloud size away from the centroid: the
+    # optimizer's steps and tolerances are relative to the magnitude of the unknowns, so the
+    # fit degrades when the points are far from the origin compared with their extent
+    xs = np.asarray(xs, dtype=float)
+    ys = np.asarray(ys, dtype=float)
+    size = max(np.ptp(xs), np.ptp(ys))
+    origin = np.array([np.mean(xs) - size, np.mean(ys) - size])
+    xs = xs - origin[0]
+    ys = ys - origin[1]
+
     def objective_f(c):
         """ 
         Distance between the vertices and the mean circle centered at c
@@ -282,7 +292,7 @@ def dlite_circle_method(xs, ys):
         return distances - distances.mean()
 
     center, _ = sco.leastsq(objective_f, (np.mean(xs), np.mean(ys)))
-    return center
+    return center + origin
 
 
 
